@@ -29,6 +29,9 @@ func (x *Exec) execCall(fc *frameCtx, st *State, i *ssa.Call) Val {
 	if callee == nil {
 		return x.execDynCall(fc, st, i)
 	}
+	if x.mapFn != nil {
+		callee = x.mapFn(callee)
+	}
 	var args []Val
 	sig := callee.Signature
 	for k, a := range cc.Args {
@@ -426,6 +429,8 @@ func (w *World) registerKeySorts() {
 func (x *Exec) execBuiltin(fc *frameCtx, st *State, i *ssa.Call, bi *ssa.Builtin) Val {
 	args := i.Common().Args
 	switch bi.Name() {
+	case "ssa:deferstack":
+		return mkInt(0) // handle of the (unused) defer stack; only present in unlifted SSA
 	case "len":
 		v := x.operand(fc, args[0], nil)
 		switch vv := v.(type) {
